@@ -99,10 +99,16 @@ fn build(cfg: &Cfg) -> BackoffStrategy {
 
 /// returns Err(signature_tail, detail) on violation
 fn check(cfg: &Cfg, max_iter: u32) -> Result<u32, (String, String)> {
+    check_built(None, cfg, max_iter)
+}
+
+/// `built`: a strategy obtained some other way than `build(cfg)` (derived from a shared base, cloned, …) that is
+/// configured as `cfg` says
+fn check_built(built: Option<BackoffStrategy>, cfg: &Cfg, max_iter: u32) -> Result<u32, (String, String)> {
     let cfg2 = cfg.clone();
     let r = catch_unwind(AssertUnwindSafe(move || {
         let mut out = vec![];
-        let it = build(&cfg2).into_iter();
+        let it = built.unwrap_or_else(|| build(&cfg2)).into_iter();
         for (i, a) in it.enumerate() {
             out.push((a.duration, a.attempt_num, a.max_attempts));
             if i as u32 >= max_iter {
@@ -296,6 +302,93 @@ pub fn run(rep: &mut StageReport, tier: &str, seed: u64, profile: &str) {
             }
         }
     }
+    // strategies derived from one another: a base is configured, clones of it are iterated (fully or partly), and
+    // further strategies are derived from it with other caps / steps / attempt counts — each must follow *its* settings
+    let n_seq = if tier == "thorough" { 400_000 } else { 12_000 };
+    let mut derived_checked = 0u64;
+    for q in 0..n_seq {
+        let law = match rng.below(3) {
+            0 => Law::Constant,
+            1 => Law::Linear,
+            _ => Law::Exponential(*rng.pick(&[0u64, 1, 2, 2, 3, 10])),
+        };
+        let mut cur = Cfg { law, step: Duration::from_millis(*rng.pick(&[0u64, 1, 250, 1000, 2000])), attempts: rng.range(1, 12) as u32, cap: if rng.pct(70) { Some(Duration::from_millis(*rng.pick(&[1u64, 1000, 4000, 4000, 60_000]))) } else { None }, order: 0 };
+        let mut b = build(&cur);
+        let mut trail = vec![format!("base {:?}", cfg_json(&cur).to_string())];
+        let mut bad: Option<(String, String)> = None;
+        for _ in 0..rng.range(2, 6) {
+            match rng.below(6) {
+                0 | 1 => {
+                    // a clone is iterated (fully, or only the first k attempts)
+                    if rng.pct(50) {
+                        trail.push("clone iterated fully".into());
+                        derived_checked += 1;
+                        if let Err(e) = check_built(Some(b.clone()), &cur, 6000) {
+                            bad = Some(e);
+                            break;
+                        }
+                    } else {
+                        let k = rng.below(4) as usize;
+                        trail.push(format!("clone iterated for {} attempt(s)", k));
+                        let c = b.clone();
+                        let _ = catch_unwind(AssertUnwindSafe(move || c.into_iter().take(k).count()));
+                    }
+                }
+                2 => {
+                    let c = Duration::from_millis(*rng.pick(&[1u64, 500, 4000, 30_000, 60_000, 3_600_000]));
+                    trail.push(format!("with_max_duration({:?})", c));
+                    b = b.with_max_duration(c);
+                    cur.cap = Some(c);
+                }
+                3 => {
+                    let st = Duration::from_millis(*rng.pick(&[0u64, 1, 100, 1000, 5000]));
+                    trail.push(format!("with_step({:?})", st));
+                    b = b.with_step(st);
+                    cur.step = st;
+                }
+                4 => {
+                    let a = rng.range(1, 14) as u32;
+                    trail.push(format!("with_max_attempts({})", a));
+                    b = b.with_max_attempts(a);
+                    cur.attempts = a;
+                }
+                _ => {
+                    trail.push("clone taken and dropped".into());
+                    let _ = b.clone();
+                }
+            }
+        }
+        if bad.is_none() {
+            derived_checked += 1;
+            trail.push("final strategy iterated".into());
+            if let Err(e) = check_built(Some(b), &cur, 6000) {
+                bad = Some(e);
+            }
+        }
+        rep.evaluations += 1;
+        match bad {
+            None => {
+                let mut h = crate::common::Hasher64::new();
+                h.s(&format!("{:?}", trail));
+                rep.distinct.insert(h.0);
+                if q % 4001 == 5 {
+                    rep.sample(json!({"derivation": trail, "verdict": "every iterated strategy follows its own settings"}));
+                }
+            }
+            Some((sig, detail)) => {
+                let signature = format!("C13/backoff/{}/{}/derived-strategy", profile, sig);
+                let already = rep.violations.iter().filter(|v| v.signature == signature).count();
+                let replay = if already < 2 {
+                    write_replay("C13", &format!("{}-{}-derived", profile, sig), q as u64, json!({"property": "C13", "profile": profile, "derivation": trail, "settings_now": cfg_json(&cur), "detail": detail}))
+                } else {
+                    String::new()
+                };
+                rep.violation(Violation { signature, detail: format!("{} — derivation {:?}", detail, trail), replay });
+            }
+        }
+    }
+    rep.count("derivation_sequences", n_seq as u64);
+    rep.count("derived_strategies_compared", derived_checked);
     rep.count("exhaustive_grid_configs", grid as u64);
     rep.count("random_configs", n_random as u64);
     rep.count("attempts_compared", attempts_checked);
